@@ -190,6 +190,19 @@ Definition context_ref_name_safe (st : symtab) (ctx_pkg ctx_path ref_pkg ref_pat
     then {| pn_abs := true; pn_name := ref_pkg ++ ref_path |}
     else {| pn_abs := false; pn_name := ref_pkg ++ ref_path |}.
 
+(* contextRefName before fix 5e02f98: no keyword check *)
+Definition context_ref_name_nokw (st : symtab) (ctx_pkg ctx_path ref_pkg ref_path : qname) : printed_name :=
+  if qname_eqb ctx_pkg ref_pkg then
+    let short := strip_common ref_path ctx_path in
+    let j := (length ref_path - length short)%nat in
+    if capture_same st ctx_pkg ctx_path j (hd [] short)
+    then {| pn_abs := true; pn_name := ref_pkg ++ ref_path |}
+    else {| pn_abs := false; pn_name := short |}
+  else
+    if capture_other st ctx_pkg ctx_path (hd [] ref_pkg)
+    then {| pn_abs := true; pn_name := ref_pkg ++ ref_path |}
+    else {| pn_abs := false; pn_name := ref_pkg ++ ref_path |}.
+
 (* a name with a leading dot is looked up as it is *)
 Definition resolve_printed (st : symtab) (pkg ctx_path : qname) (p : printed_name) : option qname :=
   if pn_abs p then (if is_type st (pn_name p) then Some (pn_name p) else None)
